@@ -922,6 +922,7 @@ pub proof fn lemma_neighbors_distinct<T>(s: Seq<Node<T>>, w: Ranks, x: int)
         s[x].previous_sibling is Some ==> s[x].previous_sibling->0.idx() != x,
         s[x].next_sibling is Some ==> s[x].next_sibling->0.idx() != x,
         s[x].previous_sibling is Some && s[x].next_sibling is Some ==> s[x].previous_sibling->0.idx() != s[x].next_sibling->0.idx(),
+        s[x].parent is Some ==> s[x].parent->0.idx() != x,
 {
     reveal(node_ok);
     assert(node_ok(s, x));
@@ -2092,6 +2093,316 @@ pub proof fn lemma_free_links<T>(o: Seq<Node<T>>, n: Seq<Node<T>>, w: Ranks, x: 
     }
     assert forall|i: int| 0 <= i < n.len() implies #[trigger] ranked_at(n, w, i) by {
         assert(ranked_at(o, w, i));
+    }
+}
+
+/// C04: exact link-level effect of `remove(x)`: x's children, in order, take x's place
+pub open spec fn remove_post<T>(o: Seq<Node<T>>, n: Seq<Node<T>>, x: int) -> bool {
+    let p = o[x].parent;
+    let a = o[x].previous_sibling;
+    let b = o[x].next_sibling;
+    let fc = o[x].first_child;
+    let lc = o[x].last_child;
+    &&& n.len() == o.len()
+    &&& forall|i: int|
+        0 <= i < o.len() ==> {
+            &&& (#[trigger] n[i]).parent == (if i == x {
+                None
+            } else if !o[i].stamp.removed() && o[i].parent is Some && o[i].parent->0.idx() == x {
+                p
+            } else {
+                o[i].parent
+            })
+            &&& n[i].previous_sibling == (if i == x {
+                None
+            } else if fc is Some && i == fc->0.idx() {
+                a
+            } else if b is Some && i == b->0.idx() {
+                if lc is Some {
+                    lc
+                } else {
+                    a
+                }
+            } else {
+                o[i].previous_sibling
+            })
+            &&& n[i].next_sibling == (if i == x {
+                None
+            } else if lc is Some && i == lc->0.idx() {
+                b
+            } else if a is Some && i == a->0.idx() {
+                if fc is Some {
+                    fc
+                } else {
+                    b
+                }
+            } else {
+                o[i].next_sibling
+            })
+            &&& n[i].first_child == (if i == x {
+                None
+            } else if p is Some && i == p->0.idx() && a is None {
+                if fc is Some {
+                    fc
+                } else {
+                    b
+                }
+            } else {
+                o[i].first_child
+            })
+            &&& n[i].last_child == (if i == x {
+                None
+            } else if p is Some && i == p->0.idx() && b is None {
+                if lc is Some {
+                    lc
+                } else {
+                    a
+                }
+            } else {
+                o[i].last_child
+            })
+        }
+}
+
+/// what the four debug assertions at the start of `remove` check
+pub proof fn lemma_remove_entry<T>(s: Seq<Node<T>>, x: NodeId)
+    requires
+        links_ok(s),
+        0 <= x.idx() < s.len(),
+        s[x.idx()].stamp == x.stamp,
+        !x.stamp.removed(),
+    ensures
+        ({
+            let n = s[x.idx()];
+            &&& tgt_ok(s, n.parent) && tgt_ok(s, n.previous_sibling) && tgt_ok(s, n.next_sibling) && tgt_ok(s, n.first_child) && tgt_ok(
+                s,
+                n.last_child,
+            )
+            &&& n.previous_sibling is Some ==> s[n.previous_sibling->0.idx()].parent == n.parent && s[n.previous_sibling->0.idx()].next_sibling
+                == Some(x)
+            &&& n.next_sibling is Some ==> s[n.next_sibling->0.idx()].parent == n.parent && s[n.next_sibling->0.idx()].previous_sibling
+                == Some(x)
+            &&& n.first_child is Some ==> s[n.first_child->0.idx()].parent == Some(x) && s[n.first_child->0.idx()].previous_sibling is None
+            &&& n.last_child is Some ==> s[n.last_child->0.idx()].parent == Some(x) && s[n.last_child->0.idx()].next_sibling is None
+            &&& (n.first_child is Some) == (n.last_child is Some)
+        }),
+{
+    reveal(node_ok);
+    let xi = x.idx();
+    assert(node_ok(s, xi));
+    if s[xi].previous_sibling is Some {
+        let y = s[xi].previous_sibling->0.idx();
+        assert(node_ok(s, y));
+        lemma_id_eq(s[y].next_sibling->0, x);
+    }
+    if s[xi].next_sibling is Some {
+        let y = s[xi].next_sibling->0.idx();
+        assert(node_ok(s, y));
+        lemma_id_eq(s[y].previous_sibling->0, x);
+    }
+    if s[xi].first_child is Some {
+        let y = s[xi].first_child->0.idx();
+        assert(node_ok(s, y));
+        lemma_id_eq(s[y].parent->0, x);
+    }
+    if s[xi].last_child is Some {
+        let y = s[xi].last_child->0.idx();
+        assert(node_ok(s, y));
+        lemma_id_eq(s[y].parent->0, x);
+    }
+}
+
+pub proof fn lemma_compose_splice<T>(s1: Seq<Node<T>>, s2: Seq<Node<T>>, s3: Seq<Node<T>>, w: Ranks, x: int, fc: NodeId, lc: NodeId, p: Option<NodeId>, a: Option<NodeId>, b: Option<NodeId>)
+    requires
+        splice_ctx(s1, w, x, fc, lc, p, a, b),
+        detach_range_post(s1, s2, fc.idx(), lc.idx()),
+        transplant_post(s2, s3, chain_from(s1, w, fc.idx()), fc, lc, p, a, b),
+    ensures
+        splice_post(s1, s3, x, chain_from(s1, w, fc.idx()), fc, lc, p, a, b),
+{
+    lemma_splice_pre_s(s1, w, x, fc, lc, p, a, b);
+    let c = chain_from(s1, w, fc.idx());
+    assert forall|i: int| 0 <= i < s1.len() && i != x implies #[trigger] s2[i] == s1[i] by {}
+    if p is Some {
+        let pi = p->0.idx();
+        assert(s2[pi] == s1[pi]);
+    }
+}
+
+/// C04 assembled: detach x, splice its children into the gap, free x
+pub proof fn lemma_remove_compose<T>(s0: Seq<Node<T>>, s1: Seq<Node<T>>, s3: Seq<Node<T>>, s4: Seq<Node<T>>, w: Ranks, x: NodeId)
+    requires
+        links_ok(s0),
+        ranked(s0, w),
+        0 <= x.idx() < s0.len(),
+        s0[x.idx()].stamp == x.stamp,
+        !x.stamp.removed(),
+        detach_post(s0, s1, x.idx()),
+        s0[x.idx()].first_child is Some ==> splice_ctx(
+            s1,
+            w,
+            x.idx(),
+            s0[x.idx()].first_child->0,
+            s0[x.idx()].last_child->0,
+            s0[x.idx()].parent,
+            s0[x.idx()].previous_sibling,
+            s0[x.idx()].next_sibling,
+        ) && splice_post(
+            s1,
+            s3,
+            x.idx(),
+            chain_from(s1, w, s0[x.idx()].first_child->0.idx()),
+            s0[x.idx()].first_child->0,
+            s0[x.idx()].last_child->0,
+            s0[x.idx()].parent,
+            s0[x.idx()].previous_sibling,
+            s0[x.idx()].next_sibling,
+        ),
+        s0[x.idx()].first_child is None ==> s3 == s1 && s0[x.idx()].last_child is None,
+        s4.len() == s3.len(),
+        forall|i: int|
+            0 <= i < s3.len() ==> (#[trigger] s4[i]).parent == s3[i].parent && s4[i].previous_sibling == s3[i].previous_sibling
+                && s4[i].next_sibling == s3[i].next_sibling && s4[i].first_child == s3[i].first_child && s4[i].last_child
+                == s3[i].last_child,
+    ensures
+        remove_post(s0, s4, x.idx()),
+{
+    let xi = x.idx();
+    lemma_neighbors_distinct(s0, w, xi);
+    if s0[xi].first_child is Some {
+        let fc = s0[xi].first_child->0;
+        let lc = s0[xi].last_child->0;
+        let p = s0[xi].parent;
+        let a = s0[xi].previous_sibling;
+        let b = s0[xi].next_sibling;
+        let c = chain_from(s1, w, fc.idx());
+        lemma_splice_pre_s(s1, w, xi, fc, lc, p, a, b);
+        lemma_children_chain(s1, w, xi);
+        assert(c.contains(fc.idx())) by {
+            assert(c[0] == fc.idx());
+        }
+        assert(c.contains(lc.idx())) by {
+            assert(c[c.len() - 1] == lc.idx());
+        }
+        assert forall|i: int| 0 <= i < s0.len() implies (c.contains(i) <==> (i != xi && !s0[i].stamp.removed() && s0[i].parent is Some
+            && s0[i].parent->0.idx() == xi)) by {
+            if c.contains(i) {
+                let k = choose|k: int| 0 <= k < c.len() && c[k] == i;
+                assert(is_me(s1, xi, s1[c[k]].parent));
+            }
+            assert(s1[i].stamp == s0[i].stamp);
+            if i != xi {
+                assert(s1[i].parent == s0[i].parent);
+            }
+        }
+        lemma_remove_pointwise(s0, s1, s3, s4, xi, c, fc, lc, p, a, b);
+    } else {
+        assert forall|i: int| 0 <= i < s0.len() && !(#[trigger] s0[i]).stamp.removed() && s0[i].parent is Some implies s0[i].parent->0.idx()
+            != xi by {
+            if s0[i].parent->0.idx() == xi {
+                lemma_parent_has_first(s0, w, i);
+            }
+        }
+        lemma_remove_leaf_pointwise(s0, s1, s4, xi);
+    }
+}
+
+pub proof fn lemma_remove_leaf_pointwise<T>(s0: Seq<Node<T>>, s1: Seq<Node<T>>, s4: Seq<Node<T>>, x: int)
+    requires
+        0 <= x < s0.len(),
+        s0[x].first_child is None && s0[x].last_child is None,
+        detach_post(s0, s1, x),
+        s4.len() == s1.len(),
+        forall|i: int|
+            0 <= i < s1.len() ==> (#[trigger] s4[i]).parent == s1[i].parent && s4[i].previous_sibling == s1[i].previous_sibling
+                && s4[i].next_sibling == s1[i].next_sibling && s4[i].first_child == s1[i].first_child && s4[i].last_child
+                == s1[i].last_child,
+        forall|i: int| 0 <= i < s0.len() && !(#[trigger] s0[i]).stamp.removed() && s0[i].parent is Some ==> s0[i].parent->0.idx() != x,
+        not_at(x, s0[x].parent),
+    ensures
+        remove_post(s0, s4, x),
+{
+    let a = s0[x].previous_sibling;
+    let b = s0[x].next_sibling;
+    let p = s0[x].parent;
+    assert forall|i: int| 0 <= i < s0.len() implies (#[trigger] s4[i]).parent == (if i == x {
+        None
+    } else {
+        s0[i].parent
+    }) by {
+        assert(s4[i].parent == s1[i].parent);
+    }
+    assert forall|i: int| 0 <= i < s0.len() implies (#[trigger] s4[i]).previous_sibling == (if i == x {
+        None
+    } else if b is Some && i == b->0.idx() {
+        a
+    } else {
+        s0[i].previous_sibling
+    }) by {
+        assert(s4[i].previous_sibling == s1[i].previous_sibling);
+    }
+    assert forall|i: int| 0 <= i < s0.len() implies (#[trigger] s4[i]).next_sibling == (if i == x {
+        None
+    } else if a is Some && i == a->0.idx() {
+        b
+    } else {
+        s0[i].next_sibling
+    }) by {
+        assert(s4[i].next_sibling == s1[i].next_sibling);
+    }
+    assert forall|i: int| 0 <= i < s0.len() implies (#[trigger] s4[i]).first_child == (if i == x {
+        None
+    } else if p is Some && i == p->0.idx() && a is None {
+        b
+    } else {
+        s0[i].first_child
+    }) by {
+        assert(s4[i].first_child == s1[i].first_child);
+    }
+    assert forall|i: int| 0 <= i < s0.len() implies (#[trigger] s4[i]).last_child == (if i == x {
+        None
+    } else if p is Some && i == p->0.idx() && b is None {
+        a
+    } else {
+        s0[i].last_child
+    }) by {
+        assert(s4[i].last_child == s1[i].last_child);
+    }
+}
+
+/// the pointwise composition behind `lemma_remove_compose` (no well-formedness needed here)
+pub proof fn lemma_remove_pointwise<T>(s0: Seq<Node<T>>, s1: Seq<Node<T>>, s3: Seq<Node<T>>, s4: Seq<Node<T>>, x: int, c: Seq<int>, fc: NodeId, lc: NodeId, p: Option<NodeId>, a: Option<NodeId>, b: Option<NodeId>)
+    requires
+        0 <= x < s0.len(),
+        p == s0[x].parent && a == s0[x].previous_sibling && b == s0[x].next_sibling,
+        s0[x].first_child == Some(fc) && s0[x].last_child == Some(lc),
+        detach_post(s0, s1, x),
+        splice_post(s1, s3, x, c, fc, lc, p, a, b),
+        s4.len() == s3.len(),
+        forall|i: int|
+            0 <= i < s3.len() ==> (#[trigger] s4[i]).parent == s3[i].parent && s4[i].previous_sibling == s3[i].previous_sibling
+                && s4[i].next_sibling == s3[i].next_sibling && s4[i].first_child == s3[i].first_child && s4[i].last_child
+                == s3[i].last_child,
+        forall|i: int| 0 <= i < s0.len() ==> (c.contains(i) <==> (i != x && !s0[i].stamp.removed() && s0[i].parent is Some && s0[i].parent->0.idx() == x)),
+        !c.contains(x),
+        c.contains(fc.idx()) && c.contains(lc.idx()),
+        a is Some ==> !c.contains(a->0.idx()) && a->0.idx() != x,
+        b is Some ==> !c.contains(b->0.idx()) && b->0.idx() != x,
+        p is Some ==> !c.contains(p->0.idx()) && p->0.idx() != x,
+        a is Some && b is Some ==> a->0.idx() != b->0.idx(),
+    ensures
+        remove_post(s0, s4, x),
+{
+    assert forall|i: int| 0 <= i < s0.len() implies {
+        &&& (#[trigger] s4[i]).parent == (if i == x {
+            None
+        } else if !s0[i].stamp.removed() && s0[i].parent is Some && s0[i].parent->0.idx() == x {
+            p
+        } else {
+            s0[i].parent
+        })
+    } by {
+        assert(s4[i].parent == s3[i].parent);
     }
 }
 
